@@ -71,7 +71,7 @@ MUTANTS = [
     ("m11a", "C11", UTILS, "        if isinstance(i, list):\n            children = [(type(obj), obj) for obj in i]\n        elif hasattr(i, \"gengy_init_values\"):", "        if hasattr(i, \"gengy_init_values\") and not getattr(i, \"_x\", False):", "list children skipped again"),
     ("m11b", "C11", UTILS, "            distance_to_term = max(distance_to_term, dist + abs_adjust + list_adjust)", "            distance_to_term = max(distance_to_term, dist + abs_adjust)", "distance not incremented per level"),
     ("m11c", "C11", UTILS, "            for k, v in thisway.items():\n                types_this_way[k].extend(v)", "            for k, v in thisway.items():\n                if k not in types_this_way:\n                    types_this_way[k].extend(v)", "type index misses repeated types below a node"),
-    ("m11d", "C11", UTILS, "            abs_adjust = 0 if not is_abstract(t) or not g.expansion_depthing else g.abstract_dist_to_t[t][type(c)]", "            abs_adjust = 0 if not is_abstract(t) or not g.expansion_depthing else max(g.abstract_dist_to_t[t][type(c)] - 1, 1)", "expansion depthing: a production two rules below its declared type counts one expansion only"),
+    ("m11d", "C11", UTILS, "            abs_adjust = 0 if not is_abstract(decl) or not g.expansion_depthing else g.abstract_dist_to_t[decl][type(c)]", "            abs_adjust = 0 if not is_abstract(decl) or not g.expansion_depthing else max(g.abstract_dist_to_t[decl][type(c)] - 1, 1)", "expansion depthing: a production two rules below its declared type counts one expansion only"),
     ("m12a", "C12", PROB, "        return a.maximizing_aggregate > b.maximizing_aggregate", "        return a.maximizing_aggregate >= b.maximizing_aggregate", "ties count as improvements"),
     ("m12b", "C12", GE + "evaluation/tracker.py", "        elif problem.is_better(individual.get_fitness(problem), self.best_individual.get_fitness(problem)):\n            self.best_individual = individual\n            is_best = True", "        elif problem.is_better(individual.get_fitness(problem), self.best_individual.get_fitness(problem)):\n            is_best = True", "best individual not updated on improvement"),
     ("m12c", "C12", GE + "algorithms/random_search.py", "        return self.tracker.get_best_individual()", "        return ind", "random search returns the last individual"),
@@ -96,7 +96,7 @@ MUTANTS = [
     ("m18a", "C18", GEF, "        return v % (max - min + 1) + min\n\n    def random_float(self, min: float, max: float) -> float:\n        k = self.randint(1, sys.maxsize)", "        return v % (max - min + 2) + min\n\n    def random_float(self, min: float, max: float) -> float:\n        k = self.randint(1, sys.maxsize)", "GE wrapper reduces modulo width + 2"),
     ("m18b", "C18", SRC, "        for i in reversed(range(1, len(lst))):\n            j = self.randint(0, i)", "        for i in reversed(range(1, len(lst))):\n            j = self.randint(0, max(0, i - 1))", "shuffle never leaves an element in place (not uniform)"),
     ("m18c", "C18", SRC, "        lst[i], item = item, lst[i]\n\n        return item", "        lst[i], item = item, lst[i]\n\n        return lst[0] if lst else item", "pop_random returns another element than the one removed"),
-    ("m18d", "C18", STACK, "        v = 1 * (max - min) / k + min\n        return v", "        v = 1 * (max - min) / k + max\n        return v", "stack wrapper's random_float lands above its upper bound"),
+    ("m18d", "C18", STACK, "        k = pow(b, e)\n        return float_between(min, max, 1, k)", "        k = pow(b, e)\n        return 1 * (max - min) / k + max", "stack wrapper's random_float lands above its upper bound"),
     ("m19a", "C19", GRAM, "            for prod in prods:\n                weights[prod] = weights[prod] / total_weights\n", "            for prod in prods:\n                weights[prod] = weights[prod] / sum(weights[p] for p in self.all_nodes if p in weights and not is_builtin(p))\n", "weights normalised over all nodes instead of per rule"),
     ("m19b", "C19", GRAM, "                weights[prod] += learning_rate * extra_weights[prod]\n", "                weights[prod] += learning_rate * 0.05\n", "re-extraction compounds (ratios drift with every extraction)"),
     ("m19c", "C19", STACK, "                [weights.get(x, 1) for x in all_stack_types],", "                [weights.get(x, 1) + 0.001 for x in all_stack_types],", "stack mapper can pick zero-weight productions"),
